@@ -53,7 +53,9 @@ theorem riem_driver_nameerror_only_in_vacuum (p : RiemDriverClass.P)
   casesm* _ ∨ _, _ ∧ _ <;>
     (simp only [epv_cond, not_le, not_lt] at *
      unfold RiemVacuum
-     first | assumption | linarith | (ring_nf at *; linarith))
+     first | assumption | linarith | (ring_nf at *; linarith)
+           -- `x ** 0.5` written for `sqrt(x)` (the same real function, `Real.sqrt_eq_rpow`)
+           | (simp only [← Real.sqrt_eq_rpow] at *; first | assumption | linarith | (ring_nf at *; linarith)))
 
 /-- outside the vacuum regime the driver reaches the grid -/
 theorem riem_driver_reaches_grid (p : RiemDriverClass.P) (h : ¬ RiemVacuum p) :
